@@ -618,7 +618,6 @@ theorem sound_next {bg : List Rat} (hbg : ∀ b ∈ bg, 0 ≤ b) (rows : List (L
         rw [e1] at e2; push_cast at e2; linarith
       have : alpha - 1 < D := by exact_mod_cast e3
       omega
-    have e : 10 * (alpha - O + c) + O' + 1 = 10 * (alpha - O + c) + O' + 1 := rfl
     exact le_trans s1 s2
   · -- p ≤ P(D ≥ alpha_e) ≤ P(S ≥ y) ≤ P(D' ≥ min')
     refine le_trans h3 ?_
@@ -656,6 +655,186 @@ theorem sound_next {bg : List Rat} (hbg : ∀ b ∈ bg, 0 ≤ b) (rows : List (L
       have : 10 * (alpha - O - c) + O' - sl < D' := by exact_mod_cast e3
       omega
     exact le_trans s1 s2
+
+/-! ### the first window is sound -/
+
+theorem listMin_le_listMax (r : List Int) : listMin r ≤ listMax r := by
+  cases r with
+  | nil => simp [listMin, listMax]
+  | cons x t => exact le_trans (listMin_le (List.mem_cons_self)) (le_listMax (List.mem_cons_self))
+
+theorem sumMin_le_sumMax (rows : List (List Int)) : (rows.map listMin).sum ≤ sumMax rows := by
+  induction rows with
+  | nil => simp [sumMax]
+  | cons r rs ih =>
+    have := listMin_le_listMax r
+    simp only [sumMax, List.map_cons, List.sum_cons] at ih ⊢
+    omega
+
+theorem sound_first {bg : List Rat} (rows : List (List Rat)) (g : Rat) {p : Rat} (hp : 0 < p) :
+    Sound bg (recompute rows g).im p
+      ((firstWindow (recompute rows g)).1 + (recompute rows g).offsets.sum
+        - Rat.ceil (errorMax g rows + 1))
+      ((firstWindow (recompute rows g)).2 + (recompute rows g).offsets.sum) := by
+  set rc := recompute rows g with hrc
+  have him : NonnegRows rc.im := nonneg_im g rows
+  obtain ⟨hE0, _⟩ := errorMax_bounds g rows
+  have hcE := halfWidth_ge g rows
+  rw [← hrc] at hcE
+  have hc0 : 0 < halfWidth rc := by
+    have : (0 : Rat) < ((halfWidth rc : Int) : Rat) := by linarith
+    exact_mod_cast this
+  have hsl0 : 0 < Rat.ceil (errorMax g rows + 1) := by
+    have h : errorMax g rows + 1 ≤ ((Rat.ceil (errorMax g rows + 1) : Int) : Rat) := Rat.le_ceil
+    have : (0 : Rat) < ((Rat.ceil (errorMax g rows + 1) : Int) : Rat) := by linarith
+    exact_mod_cast this
+  have hmin : rc.minRows.sum = (rc.im.map listMin).sum := rfl
+  have hmax : rc.maxRows.sum = sumMax rc.im := rfl
+  have hmm := sumMin_le_sumMax rc.im
+  simp only [firstWindow]
+  refine ⟨by omega, ?_, Or.inr ?_⟩
+  · have : tailD bg rc.im (rc.maxRows.sum + halfWidth rc - rc.offsets.sum + rc.offsets.sum + 1) = 0 := by
+      have h0 : tailD bg rc.im (rc.maxRows.sum + halfWidth rc - rc.offsets.sum + rc.offsets.sum + 1)
+          = expect bg rc.im (fun _ => 0) := by
+        unfold tailD
+        apply expect_congr_reach bg him
+        intro s _ hs
+        have : ¬ (rc.maxRows.sum + halfWidth rc - rc.offsets.sum + rc.offsets.sum + 1 ≤ s) := by omega
+        exact if_neg this
+      rw [h0, expect_zero]
+    rw [this]; exact le_of_lt hp
+  · intro k hk
+    unfold tailD
+    apply expect_congr_ge_min
+    intro s hs
+    have a1 : k ≤ s := by omega
+    have a2 : rc.minRows.sum - rc.offsets.sum + rc.offsets.sum - Rat.ceil (errorMax g rows + 1) ≤ s := by
+      omega
+    rw [if_pos a1, if_pos a2]
+
+/-! ### every refinement step -/
+
+/-- what is claimed of one `Iteration` of `approximate_score(p)` for a matrix of width `M` -/
+def Good (bg : List Rat) (rows : List (List Rat)) (p : Rat) (it : Iteration Rat) : Prop :=
+  tail bg rows (it.score + (rows.length + 2) * it.granularity) ≤ p ∧
+    ∀ u, 0 < pointMass bg rows u → u < it.score - (rows.length + 2) * it.granularity →
+      p ≤ tail bg rows (u - (rows.length + 2) * it.granularity)
+
+theorem scoreSteps_spec {bg : List Rat} (hbg : ∀ b ∈ bg, 0 ≤ b) (rows : List (List Rat))
+    (hlen : 2 ≤ rows.length) {p : Rat} (hp : 0 < p) (fuel : Nat) :
+    ∀ (g : Rat) (conv : Bool) (mn mx : Int), 0 < g →
+      (conv = false → Sound bg (recompute rows g).im p
+        (mn + (recompute rows g).offsets.sum - Rat.ceil (errorMax g rows + 1))
+        (mx + (recompute rows g).offsets.sum)) →
+      (scoreSteps rows bg p fuel g conv mn mx).2 = false ∧
+        ∀ it ∈ (scoreSteps rows bg p fuel g conv mn mx).1,
+          (∃ k : Nat, it.granularity = g / 10 ^ k) ∧ Good bg rows p it := by
+  induction fuel with
+  | zero => intro g conv mn mx _ _; simp [scoreSteps]
+  | succ n ih =>
+    intro g conv mn mx hg hs
+    unfold scoreSteps
+    have hg0 : ¬ g ≤ 0 := not_le.2 hg
+    cases conv with
+    | true => simp
+    | false =>
+      simp only [Bool.false_or, le_rat, zero_rat, decide_eq_true_eq, hg0, if_false]
+      have hs' := hs rfl
+      obtain ⟨alpha, a, b, hres, hup, hlow, hC⟩ := lookupScore_step hbg rows hlen hg hp hs'
+      have hres' : lookupScore (recompute rows g) bg p
+          (mn + (recompute rows g).offsets.sum - Num.ceil (Num.add (recompute rows g).errorMax Num.one))
+          (mx + (recompute rows g).offsets.sum) = some (alpha, a, b) := hres
+      rw [hres']
+      simp only
+      have hnext : 0 < g / 10 := by positivity
+      have hsound : (Num.beq a b = false → Sound bg (recompute rows (g / 10)).im p
+          ((nextWindow (recompute rows g) alpha).1 + (recompute rows (g / 10)).offsets.sum
+            - Rat.ceil (errorMax (g / 10) rows + 1))
+          ((nextWindow (recompute rows g) alpha).2 + (recompute rows (g / 10)).offsets.sum)) := by
+        intro hab
+        have hab' : a ≠ b := by simpa using hab
+        obtain ⟨c1, ae, c2, c3⟩ := hC hab'
+        exact sound_next hbg rows hg c1 c2 c3
+      obtain ⟨i1, i2⟩ := ih (g / 10) (Num.beq a b) (nextWindow (recompute rows g) alpha).1
+        (nextWindow (recompute rows g) alpha).2 hnext hsound
+      have hten : Num.div g (Num.ten : Rat) = g / 10 := rfl
+      rw [hten]
+      refine ⟨i1, ?_⟩
+      intro it hit
+      rcases List.mem_cons.1 hit with hit | hit
+      · subst hit
+        refine ⟨⟨0, by simp⟩, ?_, ?_⟩
+        · exact hup
+        · exact hlow
+      · obtain ⟨⟨k, hk⟩, hgood⟩ := i2 it hit
+        refine ⟨⟨k + 1, ?_⟩, hgood⟩
+        rw [hk, pow_succ]; field_simp
+
+/-- **C13.**  For every matrix of width `M ≥ 2`, every order of its rows, every non-negative
+    background and every `p > 0`: `approximate_score(p)` never panics, and every `Iteration` — taken
+    at a granularity `g = 10^-(k+1)`, threshold `t` — satisfies, with `d = (M+2)g`:
+    `P(S ≥ t+d) ≤ p`, and `P(S ≥ u-d) ≥ p` for every attainable score `u < t-d` (in particular the
+    largest one); `S` is the exact score of a background-distributed word under the ORIGINAL row
+    order. -/
+theorem c13 {bg : List Rat} (hbg : ∀ b ∈ bg, 0 ≤ b) (rows : List (List Rat)) (hlen : 2 ≤ rows.length)
+    {perm : List Nat} (hperm : perm.Perm (List.range rows.length)) {p : Rat} (hp : 0 < p)
+    (fuel : Nat) :
+    (approximateScore (permute rows perm) bg p fuel).2 = false ∧
+      ∀ it ∈ (approximateScore (permute rows perm) bg p fuel).1,
+        (∃ k : Nat, it.granularity = (1 / 10) ^ (k + 1)) ∧ Good bg rows p it := by
+  set prow := permute rows perm with hprow
+  have hpp : prow.Perm rows := permute_perm rows hperm
+  have hlen' : 2 ≤ prow.length := by rw [hpp.length_eq]; exact hlen
+  have hfirst := sound_first (bg := bg) prow (1 / 10) hp
+  obtain ⟨h1, h2⟩ := scoreSteps_spec hbg prow hlen' hp fuel (1 / 10) false
+    (firstWindow (recompute prow (1 / 10))).1 (firstWindow (recompute prow (1 / 10))).2
+    (by norm_num) (fun _ => hfirst)
+  have happ : approximateScore prow bg p fuel = scoreSteps prow bg p fuel (1 / 10) false
+      (firstWindow (recompute prow (1 / 10))).1 (firstWindow (recompute prow (1 / 10))).2 := rfl
+  rw [happ]
+  refine ⟨h1, ?_⟩
+  intro it hit
+  obtain ⟨⟨k, hk⟩, hg1, hg2⟩ := h2 it hit
+  refine ⟨⟨k, ?_⟩, ?_, ?_⟩
+  · rw [hk, pow_succ, one_div, inv_pow]; field_simp
+  · rw [hpp.length_eq] at hg1
+    rw [← tail_permute bg rows hperm]; exact hg1
+  · intro u hu hut
+    rw [hpp.length_eq] at hg2
+    rw [← tail_permute bg rows hperm]
+    apply hg2 u
+    · rw [pointMass, expect_perm bg hpp]; exact hu
+    · exact hut
+
+/-- the hypotheses of `c13` are satisfiable and the iterator does produce iterations: a concrete
+    run (2×2 matrix, uniform background) yields a first iteration without panicking -/
+example : ∃ it, it ∈ (approximateScore (permute [[(1 : Rat), -1], [0, 2]] [1, 0]) [1 / 2, 1 / 2] (1 / 3) 1).1 := by
+  have h := (c13 (bg := [1 / 2, 1 / 2]) (by intro b hb; simp at hb; rcases hb with rfl | rfl <;> norm_num)
+    [[(1 : Rat), -1], [0, 2]] (by simp) (perm := [1, 0]) (by decide) (p := 1 / 3) (by norm_num) 1).1
+  revert h
+  simp only [approximateScore, scoreSteps]
+  split
+  · rename_i h; norm_num at h
+  · split
+    · intro h; simp at h
+    · intro _; exact ⟨_, List.mem_cons_self⟩
+
+/-- the property as stated in properties.jsonl, for the model: `p ∈ (0,1)`, width `M ≥ 2`, any
+    non-negative background, any order of the rows, every refinement step; "attainable" = a score
+    of positive probability -/
+def Statement : Prop :=
+  ∀ (bg : List Rat) (rows : List (List Rat)) (perm : List Nat) (p : Rat) (fuel : Nat),
+    (∀ b ∈ bg, 0 ≤ b) → 2 ≤ rows.length → perm.Perm (List.range rows.length) → 0 < p → p < 1 →
+    (approximateScore (permute rows perm) bg p fuel).2 = false ∧
+    ∀ it ∈ (approximateScore (permute rows perm) bg p fuel).1,
+      tail bg rows (it.score + (rows.length + 2) * it.granularity) ≤ p ∧
+        ∀ u, 0 < pointMass bg rows u → u < it.score - (rows.length + 2) * it.granularity →
+          p ≤ tail bg rows (u - (rows.length + 2) * it.granularity)
+
+theorem c13_statement : Statement := by
+  intro bg rows perm p fuel hbg hlen hperm hp _
+  obtain ⟨h1, h2⟩ := c13 hbg rows hlen hperm hp fuel
+  exact ⟨h1, fun it hit => (h2 it hit).2⟩
 
 end C13
 end LMV
